@@ -2,7 +2,7 @@
    Model: Model/Parsers.v (dispatch through the case tables regenerated from the source).
    Specification: Model/Spec.v (canon_texts / ints_of / strings_of / descs_of / expr_sem). *)
 From Coq Require Import List NArith ZArith Bool.
-From BE Require Import Model.GoTypes Model.GoVal Model.Parsers Model.Index Model.Spec Gen.TypeSwitchGen Proofs.ParsersProof Proofs.DenoteProof.
+From BE Require Import Model.GoTypes Model.GoVal Model.Parsers Model.Index Model.Spec Gen.TypeSwitchGen Proofs.ParsersProof Proofs.DenoteProof Proofs.RangeLoopProof.
 Import ListNotations.
 
 (* generated-table obligations: no type outside the modelled universe appears in any case list *)
@@ -40,6 +40,20 @@ Theorem C17_enum_loop_never_wraps : forall fuel st e sp,
   (- two63 <= st < two63)%Z -> (- two63 <= e < two63)%Z -> (1 <= sp < two63)%Z ->
   enum_range_i64 fuel st e sp = enum_range fuel st e sp.
 Proof. exact enum_range_i64_exact. Qed.
+(* the tie to the source, as a theorem: the three enumeration loops of NumberRangeParser.ParseValue TRANSLATED from
+   parser/range_parser.go on every run (Gen/RangeLoopGen.v; int64 wrap at every node, fuelled, `break` as written)
+   append exactly the enumeration above, converted as uint64(s), with the fuel the model uses -- for EVERY int64
+   start and end and every step >= 1; they never run out of fuel and never wrap *)
+Theorem C17_translated_enum_loops_are_model : forall st e sp acc,
+  (- two63 <= st < two63)%Z -> (- two63 <= e < two63)%Z -> (1 <= sp < two63)%Z ->
+  let fuel := Z.to_nat ((e - st) / sp + 1) in
+  let out := G.Ret (acc ++ map conv (if (e <? st)%Z then [] else enum_range fuel st e sp)) in
+  R.NumberRangeParser_ParseValue_for1 fuel st e sp acc = out /\
+  R.NumberRangeParser_ParseValue_for2 fuel st e sp acc = out /\
+  R.NumberRangeParser_ParseValue_for3 fuel st e sp acc = out.
+Proof. exact range_loops_translated_are_model. Qed.
+Theorem C17_translated_conversion_is_model : forall z, Z.of_N (conv z) = wrap_u64 z.
+Proof. exact conv_is_wrap_u64. Qed.
 Theorem C17_enum_loop_pinned_refuted :
   let st := (two63 - 2)%Z in let e := (two63 - 1)%Z in
   length (enum_range (Z.to_nat ((e - st) / 1 + 1)) st e 1) = 2%nat /\
@@ -115,5 +129,7 @@ Print Assumptions C17_range_helpers_total.
 Print Assumptions C17_range_desc_refuses_bad_step.
 Print Assumptions C17_enum_range_exact.
 Print Assumptions C17_enum_loop_never_wraps.
+Print Assumptions C17_translated_enum_loops_are_model.
+Print Assumptions C17_translated_conversion_is_model.
 Print Assumptions C17_enum_loop_pinned_refuted.
 Print Assumptions C17_range_container_without_float_conversion.
